@@ -1,0 +1,16 @@
+//go:build verif
+
+// Contracts for the deductive checks in /verif (comment-only; not part of normal builds).
+
+package admin
+
+// The REST patch endpoint pushes as a VOLATILE client of the collection being patched: a volatile client is not
+// recorded among the datatype's subscribers, so every patch starts at checkpoint (0,0) and the operations of the
+// rebuilt replica (numbered from 1 again each time) are accepted. A recorded client would have its second patch
+// rejected as duplicates (C19).
+//@ func NewPatchClient
+//@   mode math
+//@   props C19
+//@   requires collectionDoc != nil
+//@   ensures[volatile-client-of-that-collection] result != nil && fresh(result) && result.Type == int8(model.ClientType_VOLATILE) && result.CollectionNum == collectionDoc.Num
+//@   modifies alloc
